@@ -110,7 +110,8 @@ def make_case(rng, F, P, T, D, pats, old, new, kind, via, values="random", dtype
                     if values == "affine":
                         conf[ci] = c
                     else:
-                        conf[ci] = rng.choice([1.0, 1.0, round(rng.uniform(0.05, 1.0), 3), round(rng.uniform(0.05, 1.0), 3), -0.5, 2.0])
+                        conf[ci] = rng.choice([1.0, 1.0, round(rng.uniform(0.05, 1.0), 3), round(rng.uniform(0.05, 1.0), 3), -0.5, 2.0,
+                                               rng.choice([1e-9, 2.5e-12, 1e-30])])   # tiny but non-zero: observed
                 for d in range(D):
                     if values == "affine" and o:
                         v = a[d] * f + b[d]
